@@ -159,6 +159,34 @@ pub fn run(tier: Tier, seed: u64) -> i32 {
         check_case,
     );
     stats.space(json!({"space": "method lists", "forms": nforms, "return_types": rts.iter().map(|r| r.0).collect::<Vec<_>>(), "lists": lists.len(), "interface_oneway": 2, "variants": ["plain", "constant first", "constant between", "same method name", "annotated methods", "overflowing transact code elsewhere"]}));
+    // size dimension: oneway interfaces with 8..=40 methods (all / every other one spelling oneway)
+    let sizes = [8usize, 15, 16, 17, 18, 24, 33, 40];
+    super::drive(
+        &stats,
+        sizes.len() * 4,
+        1,
+        |i| {
+            let n = sizes[i / 4];
+            let pat = i % 4;
+            let forms: Vec<usize> = (0..n)
+                .map(|k| {
+                    let ow = match pat {
+                        0 => 1,
+                        1 => k % 2,
+                        2 => (k >= n / 2) as usize,
+                        _ => 0,
+                    };
+                    // return type: void, or int for every fifth method
+                    (if k % 5 == 4 { 4 } else { 0 }) + ow
+                })
+                .collect();
+            let c = make_case(&forms, pat != 3 || n % 2 == 0, 0);
+            stats.nontrivial(fnv(&c.label));
+            Some(c)
+        },
+        check_case,
+    );
+    stats.space(json!({"space": "long interfaces", "sizes": sizes, "patterns": 4}));
     let all = ["redundant-oneway", "oneway-must-return-void", "none"]
         .iter()
         .all(|c| stats.outcome_count(&format!("class:{c}")) > 0);
